@@ -1,114 +1,151 @@
 ------------------------------ MODULE Transport ------------------------------
 (***************************************************************************)
-(* C17 - one request through HttpxTransport as a state machine:            *)
+(* C17 - a SESSION of requests through one HttpxTransport as a state       *)
+(* machine.  Per request:                                                  *)
 (*                                                                         *)
 (*   Defaults -> PerRequest -> ( Refresh? -> Plugin )*  |  Shortcut        *)
-(*            -> Send -> Judge                                             *)
+(*            -> Send                                                      *)
 (*                                                                         *)
-(* one action per statement group of `_prepare_headers` / `request` and    *)
-(* per `authenticate_request` call of the composition (CompositeAuth is    *)
+(* then the next request of the session starts at Defaults again, and      *)
+(* after the last one Judge evaluates every request.  One action per       *)
+(* statement group of `_prepare_headers` / `request` and per               *)
+(* `authenticate_request` call of the composition (CompositeAuth is        *)
 (* sequential application, so nesting flattens to the plug-in order).      *)
-(* Init quantifies over the whole scenario space of TransportCore          *)
-(* (plug-in subsets of <= MaxPlugins in every order, wrappings, shortcut,  *)
-(* header-name overlap patterns, caller params / cookies / body).          *)
+(*                                                                         *)
+(* What lives ACROSS requests is explicit state: `tdefaults` (the          *)
+(* transport's default-headers dict) and `stored` (the OAuth2 plug-in's    *)
+(* access_token).  The configuration must be unchanged by serving a        *)
+(* request: action property DefaultsUnchanged == [][tdefaults' =           *)
+(* tdefaults]_vars, and RequestIsolation: every request of the session is  *)
+(* what a transport fresh from its constructor would have sent for it.     *)
+(*                                                                         *)
+(* Families (constant Family):                                             *)
+(*   "single"  : one request; plug-in subsets of <= MaxPlugins in every    *)
+(*               order, wrappings, shortcut, all header-name overlap       *)
+(*               patterns, caller params / cookies / body;                 *)
+(*   "session" : exactly MaxReqs requests over one transport, every        *)
+(*               combination of per-request header patterns per position,  *)
+(*               every script of refresh-callback answers (new token, same *)
+(*               token, "", None) per position, <= MaxPlugins plug-ins.    *)
 (*                                                                         *)
 (* Variant = "as_is" models the code as written; the clauses that design   *)
-(* violates are NOT stopped on: `Judge` evaluates TransportCore!Failures   *)
-(* on the modelled wire into `verdict` and (Emit) prints one line          *)
-(*    SCEN {sc, cfg, design}                                               *)
-(* per scenario - the scenario, its concretisation for the harness and the *)
-(* design-level deviations.  The same run therefore is the design check    *)
-(* AND the scenario generator.  Variant = "fixed" (case-insensitive        *)
-(* merge, plug-ins applied to the real request arguments) is checked with  *)
-(* DesignOK as a real INVARIANT: the reference is satisfiable by a design  *)
-(* of the same shape.                                                      *)
+(* violates are NOT stopped on: `Judge` evaluates                          *)
+(* TransportCore!SessionFailures on the modelled wires into `verdict` and  *)
+(* (Emit) prints one line  SCEN {sc, cfg, design}  per scenario - the      *)
+(* scenario, its concretisation for the harness and the design-level       *)
+(* deviations.  The same run is the design check AND the scenario          *)
+(* generator.  Variant = "fixed" is checked with DesignOK as a real        *)
+(* INVARIANT (the reference is satisfiable); Variant = "aliased_defaults"  *)
+(* (prepared headers alias the defaults dict) must VIOLATE                 *)
+(* DefaultsUnchanged / RequestIsolation (the properties bind).             *)
 (***************************************************************************)
 EXTENDS TransportCore, TLC, Json
 
 CONSTANTS MaxPlugins,    \* 0..3
+          MaxReqs,       \* 1..3 : number of requests of a "session" scenario ("single" scenarios have one)
+          Family,        \* "single" | "session"
           First,         \* "any" (all sequences of <= MaxPlugins), "short" (length <= 1), or a plug-in kind: the
                          \* sequences of length exactly MaxPlugins that start with it (partition for big runs)
-          Variant,       \* "as_is" | "fixed"
+          Variant,       \* "as_is" | "fixed" | "aliased_defaults"
           BodyTied,      \* TRUE: body present iff caller cookies absent (halves the family); FALSE: independent
           Emit           \* print SCEN lines
 
-VARIABLES sc, pc, prepared, args, pending, token, calls, wire, verdict
-vars == <<sc, pc, prepared, args, pending, token, calls, wire, verdict>>
+VARIABLES sc,            \* the scenario (constant along a behaviour)
+          pc, k,         \* control state, number of the request being served
+          tdefaults,     \* the transport's default-headers dict            (lives across requests)
+          stored,        \* the OAuth2-with-refresh plug-in's access_token  (lives across requests)
+          prepared, args, pending, calls,   \* locals of the request being served
+          wires,         \* the requests sent so far
+          verdict
+vars == <<sc, pc, k, tdefaults, stored, prepared, args, pending, calls, wires, verdict>>
 
 cfg == Concrete(sc)
-
-NoWire == [headers |-> <<>>, query |-> <<>>, cookies |-> <<>>, body |-> "", refresh |-> <<>>, err |-> "unsent"]
 
 FirstOK(p) == CASE First = "any"   -> TRUE
                 [] First = "short" -> Len(p) <= 1
                 [] OTHER           -> Len(p) = MaxPlugins /\ p[1] = First
 
+InitSingle ==
+  \E p \in {q \in PlugSeqs(MaxPlugins) : FirstOK(q)} :
+  \E w \in Wraps(p), s \in Shorts(p), d \in {"none", "tag"}, ca \in CallerAuth :
+  \E r \in ReqSeqs(d, 1), kn \in KeyNames(p, d), hn \in HdrNames(p), pa \in BOOLEAN, co \in BOOLEAN :
+  \E bo \in (IF BodyTied THEN {~co} ELSE BOOLEAN) :
+     sc = [plugs |-> p, wrap |-> w, short |-> s, dflt |-> d, reqs |-> r, rets |-> AllNew(1), ca |-> ca, kn |-> kn,
+           hn |-> hn, params |-> pa, cookies |-> co, body |-> bo]
+
+\* sessions: the caller-side Authorization header only in the per-request layer (that is what can leak), caller
+\* params / cookies / body always present (every request is judged for them)
+InitSession ==
+  \E p \in {q \in PlugSeqs(MaxPlugins) : FirstOK(q)} :
+  \E w \in Wraps(p), s \in Shorts(p), d \in {"none", "tag"}, ca \in {"none", "req-equal", "req-casevar"} :
+  \E r \in ReqSeqs(d, MaxReqs), t \in RetSeqs(p, MaxReqs), kn \in KeyNames(p, d), hn \in HdrNames(p) :
+     sc = [plugs |-> p, wrap |-> w, short |-> s, dflt |-> d, reqs |-> r, rets |-> t, ca |-> ca, kn |-> kn,
+           hn |-> hn, params |-> TRUE, cookies |-> TRUE, body |-> TRUE]
+
 Init ==
-  /\ \E p \in {q \in PlugSeqs(MaxPlugins) : FirstOK(q)} :
-     \E w \in Wraps(p), s \in Shorts(p), dr \in DefReq, ca \in CallerAuth :
-     \E kn \in KeyNames(p, dr), hn \in HdrNames(p), pa \in BOOLEAN, co \in BOOLEAN :
-     \E bo \in (IF BodyTied THEN {~co} ELSE BOOLEAN) :
-        sc = [plugs |-> p, wrap |-> w, short |-> s, dflt |-> dr[1], req |-> dr[2], ca |-> ca, kn |-> kn, hn |-> hn,
-              params |-> pa, cookies |-> co, body |-> bo]
-  /\ pc = "defaults"
+  /\ IF Family = "single" THEN InitSingle ELSE InitSession
+  /\ pc = "defaults" /\ k = 1
+  /\ tdefaults = cfg.defaults
+  /\ stored = InitialToken(cfg)
   /\ prepared = <<>>
   /\ args = [headers |-> <<>>, params |-> <<>>, cookies |-> <<>>]
   /\ pending = <<>>
-  /\ token = ""
   /\ calls = <<>>
-  /\ wire = NoWire
+  /\ wires = <<>>
   /\ verdict = {}
 
 Defaults ==
   /\ pc = "defaults"
-  /\ prepared' = StepDefaults(Variant, cfg)
+  /\ prepared' = StepDefaults(Variant, tdefaults)
+  /\ calls' = <<>>
   /\ pc' = "perrequest"
-  /\ UNCHANGED <<sc, args, pending, token, calls, wire, verdict>>
+  /\ UNCHANGED <<sc, k, tdefaults, stored, args, pending, wires, verdict>>
 
 PerRequest ==
   /\ pc = "perrequest"
-  /\ prepared' = StepPerRequest(Variant, cfg, prepared)
+  /\ prepared' = StepPerRequest(Variant, cfg.requests[k], prepared)
+  /\ tdefaults' = DefaultsAfter(Variant, tdefaults, prepared')
   /\ args' = ScratchOf(Variant, cfg, prepared')
   /\ pending' = cfg.plugins
   /\ pc' = IF cfg.plugins # <<>> THEN "auth" ELSE IF cfg.bearer # "" THEN "shortcut" ELSE "send"
-  /\ UNCHANGED <<sc, token, calls, wire, verdict>>
-
-NeedsRefresh(p) == p.kind = "oauth2" /\ p.refresh
+  /\ UNCHANGED <<sc, k, stored, calls, wires, verdict>>
 
 Refresh ==
   /\ pc = "auth" /\ pending # <<>>
-  /\ NeedsRefresh(Head(pending)) /\ calls = <<>>
-  /\ calls' = Append(calls, Head(pending).val)
-  /\ token' = Refreshed(Head(pending))
-  /\ UNCHANGED <<sc, pc, prepared, args, pending, wire, verdict>>
+  /\ IsRefresh(Head(pending)) /\ calls = <<>>
+  /\ calls' = Append(calls, stored)                        \* the callback is shown the stored token
+  /\ stored' = RefreshStep(Head(pending), k, stored)       \* and its k-th answer is (or is not) taken over
+  /\ UNCHANGED <<sc, pc, k, tdefaults, prepared, args, pending, wires, verdict>>
 
 Plugin ==
   /\ pc = "auth" /\ pending # <<>>
   /\ LET p == Head(pending) IN
-       /\ NeedsRefresh(p) => calls # <<>>
-       /\ args' = ApplyPlugin(Variant, p, IF NeedsRefresh(p) THEN token ELSE p.val, args)
+       /\ IsRefresh(p) => calls # <<>>
+       /\ args' = ApplyPlugin(Variant, p, IF IsRefresh(p) THEN stored ELSE p.val, args)
   /\ pending' = Tail(pending)
   /\ pc' = IF Tail(pending) = <<>> THEN "send" ELSE "auth"
-  /\ UNCHANGED <<sc, prepared, token, calls, wire, verdict>>
+  /\ UNCHANGED <<sc, k, tdefaults, stored, prepared, calls, wires, verdict>>
 
 Shortcut ==
   /\ pc = "shortcut"
   /\ prepared' = StepShortcut(Variant, cfg, prepared)
+  /\ tdefaults' = DefaultsAfter(Variant, tdefaults, prepared')
   /\ pc' = "send"
-  /\ UNCHANGED <<sc, args, pending, token, calls, wire, verdict>>
+  /\ UNCHANGED <<sc, k, stored, args, pending, calls, wires, verdict>>
 
 Send ==
   /\ pc = "send"
-  /\ wire' = WireOf(Variant, cfg, IF cfg.plugins # <<>> THEN args.headers ELSE prepared, args, calls)
-  /\ pc' = "sent"
-  /\ UNCHANGED <<sc, prepared, args, pending, token, calls, verdict>>
+  /\ wires' = Append(wires, WireOf(Variant, cfg, IF cfg.plugins # <<>> THEN args.headers ELSE prepared, args, calls,
+                                   tdefaults))
+  /\ IF k < Len(cfg.requests) THEN k' = k + 1 /\ pc' = "defaults" ELSE k' = k /\ pc' = "sent"
+  /\ UNCHANGED <<sc, tdefaults, stored, prepared, args, pending, calls, verdict>>
 
 Judge ==
   /\ pc = "sent"
-  /\ verdict' = Failures(cfg, wire)
+  /\ verdict' = SessionFailures(cfg, wires)
   /\ pc' = "done"
   /\ Emit => PrintT("SCEN " \o ToJson([sc |-> sc, cfg |-> cfg, design |-> SetToSeq(verdict')]))
-  /\ UNCHANGED <<sc, prepared, args, pending, token, calls, wire>>
+  /\ UNCHANGED <<sc, k, tdefaults, stored, prepared, args, pending, calls, wires>>
 
 Next == Defaults \/ PerRequest \/ Refresh \/ Plugin \/ Shortcut \/ Send \/ Judge
 Spec == Init /\ [][Next]_vars
@@ -117,23 +154,29 @@ Spec == Init /\ [][Next]_vars
 \* properties
 
 TypeOK ==
-  /\ ScenarioOK(sc, MaxPlugins)
+  /\ ScenarioOK(sc, MaxPlugins, MaxReqs)
   /\ pc \in {"defaults", "perrequest", "auth", "shortcut", "send", "sent", "done"}
+  /\ k \in 1..Len(sc.reqs) /\ Len(wires) <= Len(sc.reqs)
   /\ Len(pending) <= Len(sc.plugs)
 
-Sent == pc = "done"      \* nothing changes the wire between Send and Judge: judging the final state suffices
+Done == pc = "done"      \* nothing changes the wires between the last Send and Judge: judging the final state suffices
 
 \* the step-wise machine and the closed-form model of the code path agree (the monitor uses the closed form)
-MachineIsModel == Sent => wire = ModelWire(Variant, cfg)
+MachineIsModel == Done => wires = ModelSession(Variant, cfg)
 
-\* clauses of C17 as state predicates at Send (names of DESIGN.md Appendix F)
-SentEqualsFold      == Sent => HeaderFailures(cfg, wire) = {}
-KeyPlacement        == Sent => KeyFailures(cfg, wire) = {}
-CallerArgsUntouched == Sent => CallerFailures(cfg, wire) = {}
-TokenFresh          == Sent => /\ TokenFailures(cfg, wire) = {}
-                               /\ \A f \in HeaderFailures(cfg, wire) : f.clause # "C17.token_stale"
+Clean(cs) == Done => \A f \in verdict : f.clause \notin cs
+\* clauses of C17 as state predicates over the judged session (names of DESIGN.md Appendix F)
+SentEqualsFold      == Clean({"C17.header_precedence", "C17.plugin_order"})
+KeyPlacement        == Clean({"C17.apikey_location", "C17.apikey_name"})
+CallerArgsUntouched == Clean({"C17.caller_params_changed", "C17.body_changed"})
+TokenFresh          == Clean({"C17.token_stale"})
+                       /\ (pc = "defaults" /\ RefreshIdx(View(cfg, 1)) # {}     \* between requests the plug-in holds the
+                             => stored = RefTok(cfg.plugins[CHOOSE i \in RefreshIdx(View(cfg, 1)) : TRUE], k - 1))  \* reference token
+DefaultsAsConfigured == tdefaults = cfg.defaults
+\* serving a request does not touch the transport's configuration
+DefaultsUnchanged   == [][tdefaults' = tdefaults]_vars
+\* every request sent is what a fresh transport (configured defaults, reference token) would have sent for it
+RequestIsolation    == Done => \A i \in DOMAIN wires : wires[i].headers = IsolatedWire(Variant, cfg, i).headers
 \* everything at once, for the variant that is meant to satisfy the reference
-DesignOK            == pc = "done" => verdict = {}
-\* the verdict is exactly the judge's opinion on the wire (so reading `design` from SCEN lines is sound)
-VerdictIsJudge      == pc = "done" => verdict = Failures(cfg, wire)
+DesignOK            == Done => verdict = {}
 =============================================================================
